@@ -103,6 +103,7 @@ type c17World struct {
 	cands    []neotest.SingleSigner
 	payees   []util.Uint160
 	idNo     int
+	multiTx  bool // several transactions may share a block (stateful group)
 }
 
 func newC17World(k int, h *ev.History) *c17World {
@@ -256,6 +257,9 @@ func (w *c17World) apply(v voteTx, o *chainkit.Outcome) {
 		var count int
 		count, completed, ambiguous = m.vote(d.id, voter, b)
 		_ = count
+		if ambiguous && w.multiTx {
+			panic(chainkit.HarnessError{Msg: "C17 harness: a set-valued vote was generated in a multi-transaction block"})
+		}
 		if ambiguous {
 			// a repeated vote happened inside the window but the last counted one is
 			// older than 20 blocks: the statement does not say whether the window was
@@ -377,6 +381,7 @@ func TestC17Stateful(t *testing.T) {
 		w := newC17World(k, h)
 		defer w.close()
 		w.c.FixedSysFee = 30_0000_0000
+		w.multiTx = true
 		h.Op("n=%d threshold=%d", k, w.m.threshold())
 		kinds := []string{"setConfig", "alphabetUpdate", "cheque"}
 		active := map[string][]*decision{}
@@ -456,6 +461,18 @@ func TestC17Stateful(t *testing.T) {
 				}
 				if len(actors) == 2 && actors[0].ScriptHash() == actors[1].ScriptHash() {
 					actors = actors[:1]
+				}
+				// A vote that arrives more than 20 blocks after the last counted one but within
+				// 20 blocks of a repeated vote is set-valued by the statement (was the window
+				// refreshed?). With several transactions per block the stored ballot cannot be
+				// read back per transaction, so such votes are not generated here (they are in
+				// the exhaustive group, one transaction per block) and counted.
+				if bl := w.m.ballots[string(d.id)]; bl != nil {
+					nb := int64(w.c.Height()) + 1
+					if nb-bl.height > 20 && nb-bl.lastAny <= 20 {
+						col.Count("excluded:set-valued-repeated-vote-refresh", 1)
+						continue
+					}
 				}
 				txs = append(txs, w.prepare(d, actors, who))
 			}
